@@ -683,7 +683,7 @@ META = dict(
                          "buffer n<=8"),
     outside_bounds=["text mode with encodings other than ASCII, with CR bytes on upload (universal-newline translation is by design) or beyond the 8192-byte text chunk size", "a caller that lies about size", "an expedited raw stream fed less than size bytes per "
                     "write()", "a raw caller ignoring write()'s return value", "payloads > 10000 bytes end-to-end (covered "
-                    "by the step harness)", "buffered reads with a buffer smaller than one segment (known finding)"],
+                    "by the step harness)", "a server that sends empty non-final upload segments (n = 7, c = 0; the reference server sends 1..7 bytes per segment)"],
     assumptions=["reference server written from CiA 301 7.2.4.3", "responses delivered inside send_message (deferred "
                  "delivery is exercised in C03/C07)"],
     stubs=["struct", "queue (delivery hook)", "time", "io.RawIOBase/BufferedWriter/BufferedReader models", "logging",
